@@ -91,6 +91,11 @@ func zipExec(ctx *Ctx, w []string) {
 		case "unzip":
 			dest := zu(w[1])
 			top := filepath.Dir(filepath.Dir(filepath.Dir(filepath.Dir(dest)))) // the b<n> directory
+			if strings.HasPrefix(top, zipBoxRoot+string(filepath.Separator)) {
+				// a fresh sandbox also when the op is re-executed from a replay file
+				os.RemoveAll(top)
+				os.MkdirAll(filepath.Dir(dest), 0o755)
+			}
 			zf := filepath.Join(top, "hostile.zip")
 			f, _ := os.Create(zf)
 			zw := zip.NewWriter(f)
@@ -147,6 +152,9 @@ func zipExec(ctx *Ctx, w []string) {
 		case "roundtrip":
 			dest := zu(w[1])
 			box := filepath.Dir(dest)
+			if strings.HasPrefix(box, zipBoxRoot+string(filepath.Separator)) {
+				os.RemoveAll(box) // a fresh sandbox also when re-executed from a replay file
+			}
 			src := filepath.Join(box, "src")
 			os.MkdirAll(src, 0o755)
 			tree := zipParsePairs(w[4])
@@ -169,11 +177,14 @@ func zipExec(ctx *Ctx, w []string) {
 			if depth >= 2 && w[2] == "notskip" {
 				ctx.R.Nontrivial("tree depth>=2 with a filter")
 			}
-			// source directory spelling (w[5]): abs | abs/ | ./rel | rel/
+			// source directory spelling (w[5]): abs | abs/ | ./rel | rel/ | rel | dot | dot/ | empty (the last three from inside the tree)
 			cwd, _ := os.Getwd()
 			os.Chdir(box)
 			defer os.Chdir(cwd)
-			spell := map[string]string{"abs": src, "abs/": src + "/", "./rel": "./src", "rel/": "src/", "rel": "src"}[w[5]]
+			spell := map[string]string{"abs": src, "abs/": src + "/", "./rel": "./src", "rel/": "src/", "rel": "src", "dot": ".", "dot/": "./", "empty": "", "rel/.": "src/.", "up": "../" + filepath.Base(box) + "/src"}[w[5]]
+			if w[5] == "dot" || w[5] == "dot/" || w[5] == "empty" {
+				os.Chdir(src)
+			}
 			zf := filepath.Join(box, "a.zip")
 			if err := files.ZipFolder(spell, zf, keep, w[3] == "true"); err != nil {
 				return "zip-error " + zh(err.Error())
@@ -307,7 +318,7 @@ func runZip(ctx *Ctx) {
 	if ctx.Thorough {
 		nt = 600
 	}
-	names := []string{"f1", "f2.txt", "x.skip", "sp ace", "dot.d", "ü", "bin"}
+	names := []string{"f1", "f2.txt", "x.skip", "sp ace", "dot.d", "ü", "bin", ".env", ".f1", "src", "..f", "f1.", "-x"}
 	for i := 0; i < nt; i++ {
 		var tree []string
 		used := map[string]bool{}
@@ -315,7 +326,7 @@ func runZip(ctx *Ctx) {
 		for j := 0; j < r.Range(0, 8); j++ {
 			d := dirs[r.Intn(len(dirs))]
 			if r.Chance(1, 3) && strings.Count(d, "/") < 3 {
-				nd := d + fmt.Sprintf("d%d/", r.Intn(3))
+				nd := d + []string{"d0/", "d1/", "d2/", ".d/", "src/"}[r.Intn(5)]
 				dirs = append(dirs, nd)
 				d = nd
 			}
@@ -340,7 +351,7 @@ func runZip(ctx *Ctx) {
 		for _, flt := range []string{"all", "notskip", "none"} {
 			for _, rec := range []string{"true", "false"} {
 				box := newBox()
-				spell := []string{"abs", "abs/", "./rel", "rel/", "rel"}[r.Intn(5)]
+				spell := []string{"abs", "abs/", "./rel", "rel/", "rel", "dot", "dot/", "empty", "rel/.", "up"}[r.Intn(10)]
 				do("roundtrip %s %s %s %s %s", zh(filepath.Join(box, "dest")), flt, rec, ts, spell)
 			}
 		}
